@@ -992,10 +992,66 @@ func uriBase(v ssa.Value, depth int) ssa.Value {
 			return cellBase(al, depth)
 		}
 		return v
-	case *ssa.Call, *ssa.Const:
+	case *ssa.Call:
+		// a helper that appends the query (`appendRawQuery(uri, q)`): the base of its first argument
+		if bi, _, ok := queryAppender(x.Call.StaticCallee()); ok {
+			return uriBase(x.Call.Args[bi], depth+1)
+		}
+		return v
+	case *ssa.Const:
 		return v
 	}
 	return nil
+}
+
+// queryAppender recognises a library function with string parameters every return of which is one parameter, or that
+// parameter + "?" + another parameter. It returns the indices of the base and of the query parameter.
+func queryAppender(g *ssa.Function) (baseIdx, qIdx int, ok bool) {
+	if g == nil || !InLib(g) || g.Blocks == nil || g.Signature.Results().Len() != 1 || !isStringType(g.Signature.Results().At(0).Type()) {
+		return 0, 0, false
+	}
+	idxOf := func(v ssa.Value) int {
+		for i, p := range g.Params {
+			if v == ssa.Value(p) {
+				return i
+			}
+		}
+		return -1
+	}
+	baseIdx, qIdx = -1, -1
+	n := 0
+	var alts []ssa.Value
+	for _, b := range g.Blocks {
+		if ret, isRet := b.Instrs[len(b.Instrs)-1].(*ssa.Return); isRet && b != g.Recover {
+			v := retVal(ret, 0)
+			if phi, isPhi := v.(*ssa.Phi); isPhi {
+				alts = append(alts, phi.Edges...)
+			} else {
+				alts = append(alts, v)
+			}
+		}
+	}
+	for _, v := range alts {
+		n++
+		if i := idxOf(v); i >= 0 {
+			if baseIdx >= 0 && baseIdx != i {
+				return 0, 0, false
+			}
+			baseIdx = i
+			continue
+		}
+		ls := flatten(v, 0)
+		if len(ls) == 3 && ls[0].kind != "" && ls[1].kind == "" && ls[1].text == "?" && ls[2].kind != "" {
+			bi, qi := idxOf(ls[0].val), idxOf(ls[2].val)
+			if bi < 0 || qi < 0 || (baseIdx >= 0 && baseIdx != bi) {
+				return 0, 0, false
+			}
+			baseIdx, qIdx = bi, qi
+			continue
+		}
+		return 0, 0, false
+	}
+	return baseIdx, qIdx, n > 0 && baseIdx >= 0 && qIdx >= 0
 }
 
 // ---------------------------------------------------------------------------
